@@ -34,11 +34,20 @@ pub struct V2 {
     rev: i64,
 }
 
+/// a metadata type all of whose fields are optional: it serialises to an EMPTY `[metadata]` table when nothing is set and
+/// reads back from one — but not from a file without a `[metadata]` table
+#[derive(Serialize, Deserialize, Clone, Debug, PartialEq)]
+pub struct Opt {
+    #[serde(default, skip_serializing_if = "Option::is_none")]
+    note: Option<String>,
+}
+
 #[derive(Clone, Copy, Debug, PartialEq, Eq, Hash)]
 pub enum MType {
     Generic,
     V1,
     V2,
+    Opt,
 }
 
 #[derive(Clone, Debug, PartialEq)]
@@ -46,6 +55,7 @@ pub enum MetaVal {
     Generic(TV),
     V1(String),
     V2(String, i64),
+    Opt(Option<String>),
     /// a value TOML cannot represent (an integer above i64::MAX): writing it must fail and leave the layer as it was
     Unser,
 }
@@ -56,6 +66,8 @@ impl MetaVal {
             MetaVal::Generic(t) => t.clone(),
             MetaVal::V1(v) => TV::Table(vec![("version".into(), TV::Str(v.clone()))]),
             MetaVal::V2(v, r) => TV::Table(vec![("version".into(), TV::Str(v.clone())), ("rev".into(), TV::Int(*r))]),
+            MetaVal::Opt(None) => TV::Table(vec![]),
+            MetaVal::Opt(Some(n)) => TV::Table(vec![("note".into(), TV::Str(n.clone()))]),
             MetaVal::Unser => TV::Table(vec![("stub".into(), TV::Bool(true))]),
         }
     }
@@ -64,6 +76,7 @@ impl MetaVal {
             MetaVal::Generic(t) => json!({"generic": t.to_json()}),
             MetaVal::V1(v) => json!({"v1": v}),
             MetaVal::V2(v, r) => json!({"v2": [v, r]}),
+            MetaVal::Opt(n) => json!({"opt": n}),
             MetaVal::Unser => json!({"unserializable": true}),
         }
     }
@@ -72,6 +85,8 @@ impl MetaVal {
             MetaVal::Generic(TV::from_json(g))
         } else if v.get("unserializable").is_some() {
             MetaVal::Unser
+        } else if let Some(n) = v.get("opt") {
+            MetaVal::Opt(n.as_str().map(String::from))
         } else if let Some(s) = v.get("v1") {
             MetaVal::V1(s.as_str().unwrap().into())
         } else {
@@ -86,6 +101,7 @@ pub fn seen_as(m: MType, stored: &Option<TV>) -> Option<Option<TV>> {
         MType::Generic => Some(stored.clone()),
         MType::V1 => stored.as_ref().and_then(|t| t.to_toml().try_into::<V1>().ok()).map(|v| Some(MetaVal::V1(v.version).tv())),
         MType::V2 => stored.as_ref().and_then(|t| t.to_toml().try_into::<V2>().ok()).map(|v| Some(MetaVal::V2(v.version, v.rev).tv())),
+        MType::Opt => stored.as_ref().and_then(|t| t.to_toml().try_into::<Opt>().ok()).map(|v| Some(MetaVal::Opt(v.note).tv())),
     }
 }
 
@@ -108,7 +124,7 @@ impl MetaT for V1 {
     fn from_val(v: &MetaVal) -> Self {
         match v {
             MetaVal::V1(s) | MetaVal::V2(s, _) => V1 { version: s.clone() },
-            MetaVal::Generic(_) | MetaVal::Unser => V1 { version: "from-generic".into() },
+            MetaVal::Generic(_) | MetaVal::Unser | MetaVal::Opt(_) => V1 { version: "from-generic".into() },
         }
     }
 }
@@ -120,7 +136,19 @@ impl MetaT for V2 {
         match v {
             MetaVal::V2(s, r) => V2 { version: s.clone(), rev: *r },
             MetaVal::V1(s) => V2 { version: s.clone(), rev: 0 },
-            MetaVal::Generic(_) | MetaVal::Unser => V2 { version: "from-generic".into(), rev: -1 },
+            MetaVal::Generic(_) | MetaVal::Unser | MetaVal::Opt(_) => V2 { version: "from-generic".into(), rev: -1 },
+        }
+    }
+}
+impl MetaT for Opt {
+    fn to_seen(&self) -> Option<TV> {
+        Some(MetaVal::Opt(self.note.clone()).tv())
+    }
+    fn from_val(v: &MetaVal) -> Self {
+        match v {
+            MetaVal::Opt(n) => Opt { note: n.clone() },
+            MetaVal::V1(s) | MetaVal::V2(s, _) => Opt { note: Some(s.clone()) },
+            MetaVal::Generic(_) | MetaVal::Unser => Opt { note: None },
         }
     }
 }
@@ -131,6 +159,7 @@ pub fn replace_tv(m: MType, v: &MetaVal) -> TV {
         MType::Generic => GenericMetadata::from_val(v).to_seen().unwrap(),
         MType::V1 => V1::from_val(v).to_seen().unwrap(),
         MType::V2 => V2::from_val(v).to_seen().unwrap(),
+        MType::Opt => Opt::from_val(v).to_seen().unwrap(),
     }
 }
 
@@ -176,6 +205,7 @@ pub fn mtype_name(m: MType) -> &'static str {
         MType::Generic => "generic",
         MType::V1 => "v1",
         MType::V2 => "v2",
+        MType::Opt => "opt",
     }
 }
 
@@ -209,7 +239,7 @@ fn op_from_json(v: &Value) -> Op {
             name,
             build: x["build"].as_bool().unwrap(),
             launch: x["launch"].as_bool().unwrap(),
-            m: match x["m"].as_str().unwrap() { "generic" => MType::Generic, "v1" => MType::V1, _ => MType::V2 },
+            m: match x["m"].as_str().unwrap() { "generic" => MType::Generic, "v1" => MType::V1, "opt" => MType::Opt, _ => MType::V2 },
             on_restored: RDec { keep: x["on_restored"]["keep"].as_bool().unwrap(), cause: oi(&x["on_restored"]["cause"]), wrap: x["on_restored"]["wrap"].as_bool().unwrap(), err: x["on_restored"]["err"].as_bool().unwrap() },
             on_invalid: IDec { replace: if x["on_invalid"]["replace"].is_null() { None } else { Some(MetaVal::from_json(&x["on_invalid"]["replace"])) }, cause: oi(&x["on_invalid"]["cause"]), wrap: x["on_invalid"]["wrap"].as_bool().unwrap(), err: x["on_invalid"]["err"].as_bool().unwrap() },
         },
@@ -315,6 +345,7 @@ impl<MAC: CauseLike, RAC: CauseLike> RefOps for LayerRef<HB, MAC, RAC> {
             MetaVal::Generic(t) => self.write_metadata(t.to_toml_table()),
             MetaVal::V1(s) => self.write_metadata(V1 { version: s.clone() }),
             MetaVal::V2(s, r) => self.write_metadata(V2 { version: s.clone(), rev: *r }),
+            MetaVal::Opt(n) => self.write_metadata(Opt { note: n.clone() }),
             MetaVal::Unser => {
                 #[derive(Serialize)]
                 struct Big {
@@ -439,6 +470,7 @@ fn dispatch_cached(bc: &BuildContext<HB>, name: &LayerName, build: bool, launch:
         MType::Generic => with_shapes!(GenericMetadata),
         MType::V1 => with_shapes!(V1),
         MType::V2 => with_shapes!(V2),
+        MType::Opt => with_shapes!(Opt),
     }
 }
 
@@ -748,6 +780,7 @@ pub fn metaval_strategy() -> impl Strategy<Value = MetaVal> {
     prop_oneof![
         2 => prop_oneof![Just("1.0".to_string()), Just(String::new()), Just("2 \"q\"".to_string())].prop_map(MetaVal::V1),
         2 => (prop_oneof![Just("1.0".to_string()), Just("x".to_string())], prop_oneof![Just(0i64), Just(-7i64), Just(i64::MAX)]).prop_map(|(v, r)| MetaVal::V2(v, r)),
+        1 => prop_oneof![Just(MetaVal::Opt(None)), Just(MetaVal::Opt(Some("n".to_string())))],
         2 => prop_oneof![
             Just(TV::Table(vec![])),
             Just(TV::table(vec![("other", TV::Int(1))])),
@@ -770,7 +803,7 @@ fn idec_strategy() -> impl Strategy<Value = IDec> {
     (proptest::option::weighted(0.5, metaval_strategy()), cause_strategy(), any::<bool>(), proptest::bool::weighted(0.1)).prop_map(|(replace, cause, wrap, err)| IDec { replace, cause, wrap: wrap || err, err })
 }
 pub fn mtype_strategy() -> impl Strategy<Value = MType> {
-    prop_oneof![Just(MType::Generic), Just(MType::V1), Just(MType::V2)]
+    prop_oneof![2 => Just(MType::Generic), 2 => Just(MType::V1), 2 => Just(MType::V2), 1 => Just(MType::Opt)]
 }
 
 fn env_entries() -> impl Strategy<Value = Vec<EnvEntry>> {
@@ -889,7 +922,7 @@ fn absorb(ctx: &Ctx, h: &[Op], o: crate::histworker::Outcome, sub: &str, nnames:
 }
 
 pub fn run(ctx: &Ctx) {
-    ctx.set_rule("histories of layer requests (cached x build/launch x metadata type {generic, V1, V2} x restored-callback decisions {keep, delete, with/without cause, plain/Result shape, error} x invalid-metadata decisions {delete, replace with a valid value, causes, shapes, error}; uncached x flags), layer writes through the returned LayerRef (metadata of the three types, env over all four scopes with byte-string names, SBOM sets, exec.d sets, plain files incl. bin/ lib/, symbolic links incl. dangling ones) and simulated lifecycle restores (cache=true keeps dir+metadata+SBOMs without types; launch-only keeps the metadata file only; others vanish) over 3 (quick) / 5 (thorough) layer names (prefix-related: 'alpha', 'alpha2', 'alpha.v2 layer' with a dot and a space; thorough adds a non-ASCII one), executed against a real BuildContext on a temp layers directory and against a reference model, compared after EVERY step. bounded-exhaustive: all histories of length <= 3 over a reduced alphabet of 33 operations on one layer (37 060 histories) plus all histories of the shape request, write(s), restore, request over the same alphabet; sampled: histories of length <= 24 (quick) / <= 60 (thorough). Oracle: reported state == callback decisions (an uncached request may report any Empty cause); callback invocation log (which callback, with which metadata and path) == model; disk == model (files bytewise, content metadata via Python tomllib, SBOM files), an empty layer holds no file or link (empty directories do not count), LayerRef::read_env == explicit entries + implicit layer paths of the model after every request and write, other layers byte-identical; absent and empty metadata / absent and all-false types are equal; after a callback Err the layer may be as before or as far as the model got. Non-trivial: history contains a restore followed by a request on a layer that at that moment has a directory and at least one of {SBOM, env entry, exec.d program, metadata}; distinct = hash of the operation list.");
+    ctx.set_rule("histories of layer requests (cached x build/launch x metadata type {generic, V1, V2, Opt (all fields optional: an empty [metadata] table is valid, an absent one is not)} x restored-callback decisions {keep, delete, with/without cause, plain/Result shape, error} x invalid-metadata decisions {delete, replace with a valid value, causes, shapes, error}; uncached x flags), layer writes through the returned LayerRef (metadata of the three types, env over all four scopes with byte-string names, SBOM sets, exec.d sets, plain files incl. bin/ lib/, symbolic links incl. dangling ones) and simulated lifecycle restores (cache=true keeps dir+metadata+SBOMs without types; launch-only keeps the metadata file only; others vanish) over 3 (quick) / 5 (thorough) layer names (prefix-related: 'alpha', 'alpha2', 'alpha.v2 layer' with a dot and a space; thorough adds a non-ASCII one), executed against a real BuildContext on a temp layers directory and against a reference model, compared after EVERY step. bounded-exhaustive: all histories of length <= 3 over a reduced alphabet of 33 operations on one layer (37 060 histories) plus all histories of the shape request, write(s), restore, request over the same alphabet; sampled: histories of length <= 24 (quick) / <= 60 (thorough). Oracle: reported state == callback decisions (an uncached request may report any Empty cause); callback invocation log (which callback, with which metadata and path) == model; disk == model (files bytewise, content metadata via Python tomllib, SBOM files), an empty layer holds no file or link (empty directories do not count), LayerRef::read_env == explicit entries + implicit layer paths of the model after every request and write, other layers byte-identical; absent and empty metadata / absent and all-false types are equal; after a callback Err the layer may be as before or as far as the model got. Non-trivial: history contains a restore followed by a request on a layer that at that moment has a directory and at least one of {SBOM, env entry, exec.d program, metadata}; distinct = hash of the operation list.");
     ctx.assume("the lifecycle is the abstraction stated in the property's quantifier, applied to the real directory by the harness");
     ctx.assume("malformed TOML and hand-edited env directories are not generated");
     ctx.set_exhaustive(true);
